@@ -399,3 +399,60 @@ def run_kill_obj(kind, init, maxlen, ops, kill_at, tid=1):
                 'kinds': info.get('kinds', []), 'ev': events}
     finally:
         envctl.rm(d)
+
+
+# ------------------------------------------------------------------ the creation of a sharded cache (C07 x C13)
+FAN_ARGS = dict(cull_limit=3, eviction_policy='least-recently-used')      # what the creating process asks for (no size limit)
+
+
+def run_kill_fanout_create(shards, kill_at, tid=1):
+    """The victim creates a FanoutCache (every statement and file operation of the creation is a kill point) and stores
+    one item; a later process opens the directory the same way.  kill_at = 0: counting run."""
+    import warnings
+    d = envctl.scratch('kfan')
+    try:
+        r, w = os.pipe()
+        pid = os.fork()
+        if pid == 0:
+            try:
+                os.close(r)
+                import diskcache
+                envctl.SeededUrandom(5).install()
+                lst = KillListener(kill_at)
+                interpose.install(lst, d)
+                fc = diskcache.FanoutCache(d, shards=shards, **FAN_ARGS)
+                fc.set('k', 1)
+                interpose.set_listener(None)
+                os.write(w, json.dumps({'n': lst.count}).encode())
+            finally:
+                os._exit(0)
+        os.close(w)
+        _, status = os.waitpid(pid, 0)
+        data = os.read(r, 65536)
+        os.close(r)
+        info = json.loads(data.decode()) if data else {}
+        if kill_at == 0 and not info:
+            raise MachineryError('counting run of the sharded creation died')
+        import diskcache
+        obs = {'ev': 'fanout_obs', 'shards': shards, 'opened': 0, 'limits': [], 'limits_ok': 0, 'settings_ok': 0, 'warnings': -1, 'usable': 0}
+        try:
+            fc = diskcache.FanoutCache(d, shards=shards, **FAN_ARGS)
+            obs['opened'] = 1
+            lim = [sh.size_limit for sh in fc._shards]
+            # thousandths of the total, so that the numbers stay small: every shard holds 1000 / shards of them
+            obs['limits'] = [int(round(x * 1000.0 / 2 ** 30)) for x in lim]
+            obs['limits_ok'] = 1 if all(abs(x * shards - 2 ** 30) < 1 for x in lim) else 0
+            obs['settings_ok'] = 1 if all(sh.cull_limit == 3 and sh.eviction_policy == 'least-recently-used' for sh in fc._shards) else 0
+            with warnings.catch_warnings(record=True) as ws:
+                warnings.simplefilter('always')
+                fc.check()
+            obs['warnings'] = len(ws)
+            fc.set('after', 2)
+            obs['usable'] = 1 if fc.get('after') == 2 and fc.get('k') in (None, 1) else 0
+            fc.close()
+        except Exception as exc:
+            obs['error'] = type(exc).__name__
+        return {'id': tid, 'init': {'policy': 'lru', 'cull': 3, 'limit': 0, 'stats': 0}, 'initops': [], 'ops': [], 'kill_at': kill_at,
+                'points': info.get('n', 0), 'kinds': [], 'ev': [{'ev': 'killed', 'k': 1 if os.WIFSIGNALED(status) else 0}, obs]}
+    finally:
+        envctl.rm(d)
